@@ -13,6 +13,7 @@ import (
 	"os/exec"
 	"runtime/pprof"
 	"sort"
+	"strings"
 	"time"
 
 	"dsim/sim"
@@ -23,6 +24,8 @@ import (
 type runLine struct {
 	Run        uint64          `json:"run"`
 	Hash       string          `json:"hash"`
+	EpochKeys  []string        `json:"epoch_keys,omitempty"`
+	OpKeys     [][]string      `json:"op_keys,omitempty"`
 	Violations []sim.Violation `json:"violations,omitempty"`
 	Program    *sim.Program    `json:"program,omitempty"`
 }
@@ -71,7 +74,28 @@ func main() {
 	minimize := flag.String("minimize", "", "minimise the violation recorded in this replay file (in place)")
 	raceMin := flag.Bool("racemin", false, "with -minimize: the violation is a race report; candidates run in child processes")
 	minBudget := flag.Int("minbudget", 400, "maximal number of minimisation candidates")
+	focus := flag.String("focus", "", "comma separated operation kinds: generate focus programs (P20) on these kinds")
+	permute := flag.Bool("permute", false, "execute the epochs of every program in reverse order")
+	epochKeys := flag.Bool("epochkeys", false, "emit one line per run with the digest of every epoch's results")
+	emitKeys := flag.Bool("emitkeys", false, "with -replay: print the result key of every operation")
+	histCheck := flag.String("histcheck", "", "replay file: execute its program in two fresh processes (epochs in order / reversed) and compare the results of every epoch")
 	flag.Parse()
+	var focusKinds []string
+	if *focus != "" {
+		focusKinds = strings.Split(*focus, ",")
+	}
+	if *histCheck != "" {
+		_, detail, differs, err := histCompare(*histCheck, *budget)
+		if err != nil {
+			fmt.Fprintln(os.Stderr, "worker:", err)
+			os.Exit(2)
+		}
+		if differs {
+			fmt.Println(detail)
+			os.Exit(1)
+		}
+		return
+	}
 
 	if pf := os.Getenv("DSIM_CPUPROFILE"); pf != "" {
 		f, err := os.Create(pf)
@@ -120,9 +144,13 @@ func main() {
 			os.Exit(2)
 		}
 		doWarmup(rf.Warmup, *budget)
-		opt := &sim.Options{Budget: *budget, Sites: decimal128.VerifSiteCount, Property: prof.Property, Checks: prof.Checks, Reverse: prof.Reverse, Trace: true}
+		opt := &sim.Options{Budget: *budget, Sites: decimal128.VerifSiteCount, Property: prof.Property, Checks: prof.Checks, Reverse: prof.Reverse, Trace: true, Permute: *permute, KeepKeys: *emitKeys}
 		o := sim.Execute(rf.Program, opt)
-		enc.Encode(runLine{Run: rf.Program.Run, Hash: fmt.Sprintf("%016x", o.Hash), Violations: o.Violations})
+		rl := runLine{Run: rf.Program.Run, Hash: fmt.Sprintf("%016x", o.Hash), Violations: o.Violations}
+		if *emitKeys {
+			rl.OpKeys = o.EpochOpKeys
+		}
+		enc.Encode(rl)
 		w.Flush()
 		if o.Deadlock {
 			fmt.Fprintln(os.Stderr, "worker: simulated deadlock (harness defect)")
@@ -150,7 +178,13 @@ func main() {
 			break
 		}
 		run := *from + uint64(i)**stride
-		p, g := sim.Generate(prof, *seed, run)
+		var p *sim.Program
+		var g *sim.Gen
+		if len(focusKinds) > 0 {
+			p, g = sim.GenerateFocus(prof, *seed, run, focusKinds)
+		} else {
+			p, g = sim.Generate(prof, *seed, run)
+		}
 		saveProgress := func() {
 			// the driver reads this file if the race detector kills the process
 			if *progress != "" {
@@ -163,8 +197,11 @@ func main() {
 			enc.Encode(p)
 			continue
 		}
-		opt := &sim.Options{Budget: *budget, Sites: decimal128.VerifSiteCount, Property: prof.Property, Checks: prof.Checks, Reverse: prof.Reverse}
-		opt.Plan = func(ei int, steps [][]uint64) { sim.PlanSchedule(g, p, ei, steps); saveProgress() }
+		opt := &sim.Options{Budget: *budget, Sites: decimal128.VerifSiteCount, Property: prof.Property, Checks: prof.Checks, Reverse: prof.Reverse, Permute: *permute}
+		if !*permute {
+			// the permuted twin of a focus run compares results only; it runs unscheduled
+			opt.Plan = func(ei int, steps [][]uint64) { sim.PlanSchedule(g, p, ei, steps); saveProgress() }
+		}
 		if len(sum.Samples) < 2 && i%7 == 3 {
 			opt.Trace = true
 		}
@@ -238,6 +275,13 @@ func main() {
 		} else if *hashlog {
 			enc.Encode(runLine{Run: run, Hash: fmt.Sprintf("%016x", o.Hash)})
 		}
+		if *epochKeys {
+			rl := runLine{Run: run, Hash: "epochs"}
+			for _, k := range o.EpochKeys {
+				rl.EpochKeys = append(rl.EpochKeys, fmt.Sprintf("%x", k))
+			}
+			enc.Encode(rl)
+		}
 	}
 	for h := range nontrivial {
 		sum.Nontrivial = append(sum.Nontrivial, fmt.Sprintf("%x", h))
@@ -265,6 +309,60 @@ func main() {
 		fmt.Fprintln(os.Stderr, "worker: simulated deadlock (harness defect)")
 		os.Exit(2)
 	}
+}
+
+// histCompare executes the program of a replay file in two fresh child
+// processes, once with its epochs in order and once reversed, and compares
+// the results of every operation of every epoch.
+func histCompare(path string, budget uint64) (op string, detail string, differs bool, err error) {
+	run := func(permute bool) ([][]string, error) {
+		args := []string{"-replay", path, "-emitkeys", "-budget", fmt.Sprint(budget)}
+		if permute {
+			args = append(args, "-permute")
+		}
+		cmd := exec.Command(os.Args[0], args...)
+		var ob, eb bytes.Buffer
+		cmd.Stdout, cmd.Stderr = &ob, &eb
+		if err := cmd.Run(); err != nil {
+			if ee, ok := err.(*exec.ExitError); !ok || ee.ExitCode() != 1 {
+				return nil, fmt.Errorf("child failed: %v %s", err, eb.String())
+			}
+		}
+		var rl runLine
+		if err := json.Unmarshal(bytes.TrimSpace(ob.Bytes()), &rl); err != nil {
+			return nil, err
+		}
+		return rl.OpKeys, nil
+	}
+	a, err := run(false)
+	if err != nil {
+		return "", "", false, err
+	}
+	b, err := run(true)
+	if err != nil {
+		return "", "", false, err
+	}
+	for ei := range a {
+		if ei >= len(b) || len(a[ei]) != len(b[ei]) {
+			return "?", fmt.Sprintf("epoch %d produced a different number of results", ei), true, nil
+		}
+		for i := range a[ei] {
+			if a[ei][i] != b[ei][i] {
+				f := strings.SplitN(a[ei][i], " ", 3)
+				g := strings.SplitN(b[ei][i], " ", 3)
+				kind := "?"
+				if len(f) == 3 {
+					kind = f[1]
+				}
+				ka, kb := a[ei][i], b[ei][i]
+				if len(f) == 3 && len(g) == 3 {
+					ka, kb = f[2], g[2]
+				}
+				return kind, fmt.Sprintf("epoch %d operation %s: epochs in program order give %.160s, the same epochs executed in reverse order (fresh process) give %.160s", ei, f[0]+" "+kind, ka, kb), true, nil
+			}
+		}
+	}
+	return "", "", false, nil
 }
 
 // doWarmup re-creates the process history a violation depends on.
@@ -302,7 +400,22 @@ func doMinimise(path string, race bool, maxTries int, budget uint64) int {
 	}
 	var last *sim.Violation
 	var lastRace *sim.RaceReport
+	hist := rf.Class == sim.VHistory
 	still := func(c *sim.Program) bool {
+		if hist {
+			tmp := path + ".cand"
+			b, _ := json.Marshal(sim.ReplayFile{Program: c})
+			if os.WriteFile(tmp, b, 0o644) != nil {
+				return false
+			}
+			defer os.Remove(tmp)
+			op, d, differs, err := histCompare(tmp, budget)
+			if err != nil || !differs || op != rf.Op {
+				return false
+			}
+			rf.Detail = d
+			return true
+		}
 		if race {
 			tmp := path + ".cand"
 			b, _ := json.Marshal(sim.ReplayFile{Program: c, Warmup: rf.Warmup})
@@ -360,7 +473,7 @@ func doMinimise(path string, race bool, maxTries int, budget uint64) int {
 	if lastRace != nil {
 		rf.RaceText = lastRace.Text
 	}
-	if !race {
+	if !race && !hist {
 		opt := &sim.Options{Budget: budget, Sites: decimal128.VerifSiteCount, Property: prof.Property, Checks: prof.Checks, Reverse: prof.Reverse, Trace: true}
 		o := sim.Execute(min, opt)
 		rf.Trace = o.Trace
